@@ -600,6 +600,59 @@ func (w *world) newLedger(gen *types.Block, n int) (*ledgerInst, error) {
 	return l, nil
 }
 
+// genesisCrash: first start stopped at crash point k, then a second start on the same directory.
+func (w *world) genesisCrash(r *hx.Run, g *blockSpec, blk *types.Block, n, k int, twin bool) string {
+	ledgerCount++
+	dir, err := os.MkdirTemp(os.Getenv("HLEDGER_DIR"), fmt.Sprintf("hledger-%d-", ledgerCount))
+	if err != nil {
+		return "err:other"
+	}
+	l := &ledgerInst{dir: dir, genesis: blk}
+	for i := 0; i < n; i++ {
+		l.bks = append(l.bks, pool[i].pub)
+	}
+	w.main = l
+	crashed := false
+	var ferr error
+	func() {
+		defer func() {
+			if e := recover(); e != nil {
+				if _, ok := e.(ledgerstore.VerifCrash); ok {
+					crashed = true
+					return
+				}
+				panic(e)
+			}
+		}()
+		ledgerstore.VerifCrashAt = k
+		ferr = l.open()
+	}()
+	ledgerstore.VerifCrashAt = -1
+	if !crashed {
+		return "nocrash:" + errClass(ferr)
+	}
+	l.close()
+	rerr := l.open()
+	if twin {
+		blk2, _ := g.materialize(true)
+		if w.twin, err = w.newLedger(blk2, n); err != nil {
+			return "twin-" + errClass(err)
+		}
+	}
+	if rerr != nil {
+		l.dead = errClass(rerr)
+		r.Viol(fmt.Sprintf("C12:first-start-crash:restart-fails:k=%d", k), fmt.Sprintf("after a crash at point %d while persisting the genesis block the node cannot start again: %v", k, rerr))
+		return "crashed " + errClass(rerr)
+	}
+	got := l.observe()
+	if w.twin != nil {
+		if a, b := got.durable(), w.twin.observe().durable(); a != b {
+			r.Viol(fmt.Sprintf("C12:first-start-crash:state-differs:k=%d", k), fmt.Sprintf("after a crash at point %d while persisting the genesis block and a second start the ledger differs from a ledger started without crash: %s", k, diffFields(a, b)))
+		}
+	}
+	return "crashed ok " + got.String()
+}
+
 func (l *ledgerInst) addBlock(blk *types.Block, badRoot bool) error {
 	res, _ := l.store.ExecuteBlock(blk)
 	root := res.MerkleRoot
@@ -623,8 +676,14 @@ func (w *world) Exec(r *hx.Run, op []string) string {
 		return "bad-op"
 	}
 	switch op[0] {
-	case "genesis":
-		if len(op) != 8 {
+	case "genesis", "gcrash":
+		// gcrash: the very first start is stopped at crash point k of the genesis block's submitBlock, the stores are
+		// closed and the node is started again on the same directory
+		want := 8
+		if op[0] == "gcrash" {
+			want = 9
+		}
+		if len(op) != want {
 			return "bad-op"
 		}
 		n, _ := strconv.Atoi(op[1])
@@ -650,6 +709,10 @@ func (w *world) Exec(r *hx.Run, op []string) string {
 			return "bad-op:" + err.Error()
 		}
 		w.blocks["g"] = g
+		if op[0] == "gcrash" {
+			k, _ := strconv.Atoi(op[8])
+			return w.genesisCrash(r, g, blk, n, k, op[7] == "1")
+		}
 		if w.main, err = w.newLedger(blk, n); err != nil {
 			return errClass(err)
 		}
